@@ -323,10 +323,13 @@ Qed.
 Lemma nth_seg js xs : forall n a s, (s < n)%nat ->
   nth s (seg js xs a n) (0, ezero Ops) = (nthN js (a + N.of_nat s) 0, nthN xs (a + N.of_nat s) (ezero Ops)).
 Proof.
-  induction n; intros a s Hs; [lia|]. rewrite seg_S. destruct s; cbn [nth].
-  - rewrite (IHn (a + 1) s) by lia. replace (a + 1 + N.of_nat s) with (a + N.of_nat (S s)) by lia. reflexivity.
-  - rewrite IHn by lia. repeat f_equal; lia.
+  induction n; intros a s Hs; [lia|]. rewrite seg_S. destruct s as [|s']; cbn [nth].
+  - replace (a + N.of_nat 0) with a by lia. reflexivity.
+  - rewrite (IHn (a + 1) s') by lia. replace (a + 1 + N.of_nat s') with (a + N.of_nat (S s')) by lia. reflexivity.
 Qed.
+
+Lemma lenN_map {A B} (g : A -> B) (l : list A) : lenN (map g l) = lenN l.
+Proof. unfold lenN. rewrite map_length. reflexivity. Qed.
 
 (* ---------- csr_binop_csr_canonical ---------- *)
 Theorem binop_spec (A B C : mat) :
@@ -364,15 +367,14 @@ Proof.
         seg oj ox (nthN p i' 0) (N.to_nat (nthN p (i' + 1) 0 - nthN p i' 0)) = merge (row_of Ops A i') (row_of Ops B i')).
   destruct (for_range_inv Pinv body 0 row (p0, [], [], 0)) as (st & Hrun & Hfin).
   - lia.
-  - unfold Pinv. unfold p0. repeat split.
-    + rewrite lenN_updn by lia. assumption.
-    + rewrite nthN_updn by lia. reflexivity.
-    + rewrite nthN_updn by lia. reflexivity.
-    + lia.
-    + intros k Hk. unfold lenN in Hk; cbn in Hk; lia.
-    + lia.
-    + lia.
-    + lia.
+  - unfold Pinv, p0.
+    split; [rewrite lenN_updn by lia; assumption|].
+    split; [rewrite nthN_updn by lia; reflexivity|].
+    split; [reflexivity|]. split; [reflexivity|].
+    split; [rewrite nthN_updn by lia; reflexivity|].
+    split; [lia|].
+    split; [intros k Hk; unfold lenN in Hk; cbn in Hk; lia|].
+    intros; lia.
   - intros i [[[p oj] ox] nnz] I1 I2 (P1 & P2 & P3 & P4 & P5 & P6 & P7 & P8).
     unfold body.
     rewrite (getN_p A i WA) by lia. cbn [bind].
@@ -386,43 +388,40 @@ Proof.
     set (r := merge (row_of Ops A i) (row_of Ops B i)).
     assert (Hr : lenN r <= col).
     { pose proof (bsorted_length 0 col r ltac:(lia) (Hm i I2)). lia. }
-    rewrite (binop_row_spec A B LxA A1 LxB B1 _ _ _ _ _ oj ox nnz ltac:(lia) ltac:(lia) ltac:(lia) ltac:(lia) ltac:(lia) r eq_refl)
-      by nia.
+    erewrite (binop_row_spec A B LxA A1 LxB B1) with (r := r); [|lia|lia|lia|lia|lia|reflexivity|nia].
     cbn [bind]. rewrite setN_ok by lia. cbn [bind].
     eexists; split; [reflexivity|].
-    unfold Pinv. repeat split.
-    + rewrite lenN_updn by lia. assumption.
-    + rewrite nthN_updn by lia. destruct (N.eqb_spec 0 (i + 1)); [lia|assumption].
-    + rewrite !lenN_app. unfold lenN at 2 4. rewrite !map_length. lia.
-    + rewrite lenN_app. unfold lenN at 3. rewrite map_length. unfold lenN. lia.
-    + rewrite nthN_updn by lia. rewrite N.eqb_refl. reflexivity.
-    + nia.
-    + intros k Hk. rewrite lenN_app in Hk.
+    unfold Pinv.
+    split; [rewrite lenN_updn by lia; assumption|].
+    split; [rewrite nthN_updn by lia; destruct (N.eqb_spec 0 (i + 1)); [lia|assumption]|].
+    split; [rewrite !lenN_app, !lenN_map; lia|].
+    split; [rewrite lenN_app, lenN_map; lia|].
+    split; [rewrite nthN_updn by lia; rewrite N.eqb_refl; reflexivity|].
+    split; [nia|].
+    split.
+    { intros k Hk. rewrite lenN_app in Hk.
       destruct (N.lt_ge_cases k (lenN oj)).
       * rewrite nthN_app1 by assumption. apply P7; assumption.
       * rewrite nthN_app2 by assumption. unfold nthN.
         unfold lenN in Hk at 2. rewrite map_length in Hk.
         rewrite (nth_indep _ 0 (fst (0, ezero Ops))) by (rewrite map_length; lia).
-        rewrite map_nth. apply (bsorted_nth 0 col r (Hm i I2)). lia.
-    + destruct (N.eq_dec i' i) as [->|Hne].
-      * rewrite !nthN_updn by lia. rewrite N.eqb_refl.
-        destruct (N.eqb_spec i (i + 1)); [lia|]. rewrite P5. lia.
-      * destruct (P8 i' ltac:(lia)) as (Q1 & Q2 & Q3). rewrite !nthN_updn by lia.
-        destruct (N.eqb_spec i' (i + 1)); [lia|]. destruct (N.eqb_spec (i' + 1) (i + 1)); [lia|]. assumption.
-    + destruct (N.eq_dec i' i) as [->|Hne].
-      * rewrite !nthN_updn by lia. rewrite N.eqb_refl. lia.
-      * destruct (P8 i' ltac:(lia)) as (Q1 & Q2 & Q3). rewrite !nthN_updn by lia.
-        destruct (N.eqb_spec (i' + 1) (i + 1)); [lia|]. lia.
-    + destruct (N.eq_dec i' i) as [->|Hne].
-      * rewrite !nthN_updn by lia. rewrite N.eqb_refl.
-        destruct (N.eqb_spec i (i + 1)); [lia|]. rewrite P5.
-        replace (N.to_nat (nnz + lenN r - nnz)) with (length r) by (unfold lenN; lia).
-        rewrite P4. apply seg_appended. assumption.
-      * destruct (P8 i' ltac:(lia)) as (Q1 & Q2 & Q3). rewrite !nthN_updn by lia.
-        destruct (N.eqb_spec i' (i + 1)); [lia|]. destruct (N.eqb_spec (i' + 1) (i + 1)); [lia|].
-        rewrite <- Q3. apply seg_ext. intros k K1 K2.
-        rewrite !nthN_app1 by lia. auto.
-  - destruct st as [[[p1 oj] ox] nnz]. rewrite Hrun. cbn [bind].
+        rewrite map_nth. apply (bsorted_nth 0 col r (Hm i I2)). lia. }
+    intros i' Hi'.
+    destruct (N.eq_dec i' i) as [->|Hne].
+    + rewrite !nthN_updn by lia. rewrite N.eqb_refl.
+      destruct (N.eqb_spec i (i + 1)); [lia|]. rewrite P5.
+      split; [lia|]. split; [lia|].
+      replace (N.to_nat (nnz + lenN r - nnz)) with (length r) by (unfold lenN; lia).
+      rewrite P4. apply seg_appended. assumption.
+    + destruct (P8 i' ltac:(lia)) as (Q1 & Q2 & Q3). rewrite !nthN_updn by lia.
+      destruct (N.eqb_spec i' (i + 1)); [lia|]. destruct (N.eqb_spec (i' + 1) (i + 1)); [lia|].
+      split; [assumption|]. split; [lia|].
+      rewrite <- Q3. apply seg_ext. intros k K1 K2.
+      rewrite !nthN_app1 by lia. auto.
+  - destruct st as [[[p1 oj] ox] nnz].
+    match goal with |- context [for_range 0 ?rw ?b ?s0] =>
+      change (for_range 0 rw b s0) with (for_range 0 row body (p0, [], [], 0)) end.
+    rewrite Hrun. cbn [bind]. change (crow A) with row.
     destruct Hfin as (P1 & P2 & P3 & P4 & P5 & P6 & P7 & P8).
     (* the duplicate check finds nothing *)
     assert (Hsorted : forall i, i < row -> forall a b, nthN p1 i 0 <= a -> a < b -> b < nthN p1 (i + 1) 0 ->
@@ -452,7 +451,6 @@ Proof.
     + split; [split|split].
       * unfold wf. rewrite !HP. replace (crow R) with (crow C) by reflexivity. rewrite HrC.
         unfold R; cbn [cp cj cx]. repeat split; try assumption; try lia.
-        intros i Hi. apply (P8 i Hi).
       * intros i Hi a b. rewrite !HP. replace (crow R) with (crow C) in Hi by reflexivity. rewrite HrC in Hi.
         apply Hsorted; assumption.
       * intros k Hk. unfold R in *; cbn [cj ccol] in *. rewrite HcC. apply P7; assumption.
